@@ -27,7 +27,7 @@ CHECK = {
              "(b) model fits: data sources from the shared generator (20..120 samples, 1..6 inputs incl. categorical / structured / missing "
              "values (boosting only), targets = noisy planted function of the inputs: scalar or structured regression, single-label, "
              "multi-label), samples given to fit = all or a subset; linear ordinary | lasso | ridge | elastic_net x 4 scalings x batch, or "
-             "gradient boosting with 1..4 prototypes from the 8 weak learners x shrinkage off | global | local x 5 subsample modes x wscale "
+             "gradient boosting with 1..4 prototypes from the 8 weak learners x shrinkage off | global | local x 5 subsample modes x subsample_ratio over (0, 1] (incl. ratio x #train < 1) x wscale "
              "gboost | tboost x max_rounds 10..12 x patience 1..4 x eps in [1e-12, 1]; 17 losses matched to the target; k-fold | random "
              "splitter, 2..5 folds, any seed; local-search | surrogate tuner, max_evals 10..20; lbfgs with 10..100 evaluations; 1 | 2 | 4 threads. "
              "Oracle: the splitter is re-run to obtain each fold's indices; for each (trial, fold) the stored model (extra(trial, fold)) is "
